@@ -22,6 +22,17 @@ sec=p1+"### 9.2 Genuine defects found by the checks and repaired (%s `fix:` comm
 sec+="Every entry below was first reported by a check on the then-current tree with a minimised, gated replay, reproduced\nagainst the real code, repaired by one small commit, and its reverse patch (where it still applies, else a hand-made\nequivalent) is kept in `tools/mutants/` and re-detected by `tools/sensitivity.sh`.\n\n"+fx+"\n\n"+p3
 sec+="### 9.5 Seeded changes from independent sub-agents, and which checks catch them\n\nEach sub-agent got only the property text and a scratch worktree (second-round agents also a one-line list of the changes\nalready made, so as not to repeat them); I re-confirmed every change in my own scratch worktree\n(`tools/confirm_seeded.sh`: clean tree builds, 8/8 ctest, demo exits 0; patched tree builds, 8/8 ctest, demo fails) before\nfiling it under `/verif/seeded/<name>/`. \"first MISSED\" rows led to the generator or oracle changes noted in the row.\n\n"+tbl+"\n"+sens
 sec+="\nHand-written mutants and reverse patches of the repairs live in `tools/mutants/` (mapping to properties in `tools/mutants/MAP`).\n"
+# 9.6: what the last runs from /verif covered (read from the evidence files the checks wrote)
+rows6=[]
+for tier,dirn in (('quick',R+'/evidence'),('thorough',R+'/evidence/thorough')):
+    for f in sorted(glob.glob(dirn+'/C*.json')):
+        try: e=json.load(open(f))
+        except Exception: continue
+        if e.get('tier')!=tier: continue
+        c=e['coverage']
+        rows6.append("| %s | %s | %s | %d | %d | %.0f | %.0f | %s | %d |"%(e['property_id'],tier,e.get('level',''),c.get('evaluations',0),c.get('distinct_nontrivial',0),c.get('simulated_time_s',0),e.get('wall_s',0),"{:,.0f}".format(c.get('runs_per_hour',0)),e.get('violations',0)))
+if rows6:
+    sec+="\n### 9.6 The last runs from /verif (numbers read from `evidence/*.json` and `evidence/thorough/*.json`)\n\n| property | tier | level | evaluations | distinct non-trivial | simulated s | wall s | runs/hour | violations |\n|---|---|---|---|---|---|---|---|---|\n"+"\n".join(rows6)+"\n"
 s=open(R+'/DESIGN.md').read()
 s=s[:s.index('## 9. As built')]+sec
 open(R+'/DESIGN.md','w').write(s)
